@@ -160,7 +160,7 @@ def classify(unit, vxlog, gen_lines, res):
         prim = next((s for s in spans if s.get("is_primary")), spans[0] if spans else None)
         if kind is None:
             if any(k.lower() in msg.lower() for k in RESOURCE_KINDS):
-                undec.append({"unit": unit, "reason": "resource limit: " + msg})
+                undec.append({"unit": unit, "reason": "resource limit: " + msg, "at": (prim or {}).get("line_start")})
             else:
                 undec.append({"unit": unit, "reason": "non-verification error: " + msg,
                               "at": (prim or {}).get("line_start")})
@@ -413,6 +413,60 @@ def with_auto_stubs(unit, pieces_all):
     return path
 
 
+RUST_KW = {"if", "while", "for", "match", "loop", "return", "assert", "Some", "None", "Ok", "Err", "Tracked", "Ghost", "forall", "exists", "old", "final",
+           "proof", "let", "fn", "requires", "ensures", "invariant", "decreases", "choose", "Seq", "Map", "Set", "reveal", "assume", "implies", "by"}
+
+
+# std methods vstd gives a specification to (a body that starts using one of them is still a body Verus reads with full knowledge)
+STD_SPECIFIED = {"insert", "push", "len", "is_some", "is_none", "is_ok", "is_err", "unwrap", "get", "contains_key", "remove", "pop", "clear",
+                 "iter", "keys", "values", "last", "first", "is_empty", "as_ref", "take", "expect", "unwrap_or", "new", "with_capacity"}
+
+
+def called_names(text):
+    """names applied to an argument list in a piece of generated text (method / function / macro-free calls)"""
+    text = re.sub(r"/\*.*?\*/", " ", text, flags=re.S)
+    text = re.sub(r"//[^\n]*", " ", text)
+    text = re.sub(r'"(?:[^"\\]|\\.)*"', '""', text)
+    return set(n_ for n_ in re.findall(r"\b([A-Za-z_][A-Za-z0-9_]*)\s*(?:::\s*<[^>]*>\s*)?\(", text) if n_ not in RUST_KW)
+
+
+_BASE_CACHE = {}
+
+
+def baseline_calls(unit):
+    """per function (short emitted name) the names called in its body as generated from the baseline commit of /repo;
+    None when the baseline cannot be produced (then the lost-exprmap rule stays conservative)"""
+    if unit in _BASE_CACHE:
+        return _BASE_CACHE[unit]
+    res = None
+    try:
+        commit = load_cfg().get("baseline_commit")
+        if commit:
+            bdir = os.path.join(ROOT, "build", f"baseline_{commit}")
+            if not os.path.isdir(os.path.join(bdir, "runtime")):
+                os.makedirs(bdir, exist_ok=True)
+                ar = subprocess.run(["git", "-C", "/repo", "archive", commit, "runtime", "rinklecate", "compiler"], capture_output=True)
+                if ar.returncode == 0:
+                    subprocess.run(["tar", "-x", "-C", bdir], input=ar.stdout, check=True)
+            if os.path.isdir(os.path.join(bdir, "runtime")):
+                out = os.path.join(bdir, f"{unit}.rs")
+                log = os.path.join(bdir, f"{unit}.log.json")
+                rc, o, e = sh([VX, "extract", "--repo", bdir, "--unit", os.path.join(ROOT, "units", unit + ".vrs"), "--out", out, "--log", log])
+                if rc == 0:
+                    gl = open(out).read().splitlines()
+                    vl = json.load(open(log))
+                    res = {}
+                    for f in vl["functions"]:
+                        if f.get("sigonly") or not f.get("out_start"):
+                            continue
+                        nm = (f.get("emitted_as") or f["fn"]).split("::")[-1]
+                        res.setdefault(nm, set()).update(called_names("\n".join(gl[int(f["out_start"]) - 1:int(f["out_end"])])))
+    except Exception:
+        res = None
+    _BASE_CACHE[unit] = res
+    return res
+
+
 def run_unit(unit, tier, seed):
     try:
         return run_unit_inner(unit, tier, seed)
@@ -507,13 +561,26 @@ def run_unit_inner(unit, tier, seed):
             key = x["rename"] if x.get("rename") else x.get("fn", "").split("::")[-1]
             lost.setdefault(key, []).append(x["exprmap"])
     if lost and viol:
+        # ... but only when what replaced the mapped code brought calls into the body that the unit knows nothing about:
+        # names called in the function's generated body now, that were not called in the body generated from the baseline
+        # commit and that the generated unit does not define. A stand-in that is simply gone (statement deleted, condition
+        # rewritten over names the unit already knows) leaves a body Verus reads as before: its failures stand.
+        base = baseline_calls(unit)
+        defined = set(re.findall(r"\bfn\s+([A-Za-z_][A-Za-z0-9_]*)", "\n".join(gen_lines)))
         keep = []
         for v in viol:
-            hit = lost.get(v["fn"].split("::")[-1], [])
+            short = v["fn"].split("::")[-1]
+            hit = lost.get(short, [])
             if hit:
-                undec.append({"unit": unit, "reason": "obligation failed in a function one of whose stand-ins no longer matches the code (lost anchor //@exprmap)", "id": v["id"], "exprmap": hit[:3]})
-            else:
-                keep.append(v)
+                f_ = next((f for f in vxlog["functions"] if f["fn"] == v["fn"] and not f.get("sigonly")), None)
+                body = "\n".join(gen_lines[int(f_["out_start"]) - 1:int(f_["out_end"])]) if f_ and f_.get("out_start") else ""
+                now = called_names(body)
+                foreign = sorted(n_ for n_ in now if n_ not in defined and n_ not in STD_SPECIFIED and (base is None or n_ not in base.get(short, set())))
+                if base is None or foreign:
+                    undec.append({"unit": unit, "reason": "obligation failed in a function one of whose stand-ins no longer matches the code, and the code that replaced it calls names the unit has no model of (lost anchor //@exprmap)",
+                                  "id": v["id"], "exprmap": hit[:3], "unmodelled_calls": foreign[:6]})
+                    continue
+            keep.append(v)
         viol = keep
     fb = breakdown(res)
     counts = air_counts(logdir)
@@ -590,12 +657,22 @@ def run_unit_inner(unit, tier, seed):
         undec.append({"unit": unit, "reason": "vacuity guard", "details": can_bad})
     # ---- stability: a candidate violation must fail under other seeds / doubled rlimit too
     if viol and not undec:
+        # Verus reports only the first few failing obligations of a function, and which ones it reports varies with the seed:
+        # an obligation is stable when, under each other seed, it fails again OR the same function fails with another obligation
+        # of the same property ownership (the function's proof does not go through under any seed)
         stable_ids = set(v["id"] for v in viol)
         for k in (seed + 1, seed + 2):
             res2 = run_verus(out, ("--smt-option", f"smt.random_seed={k % 1000}", "--rlimit", "20"))
             v2, u2 = classify(unit, vxlog, gen_lines, res2)
             ids2 = set(v["id"] for v in v2)
-            stable_ids &= ids2
+            fns2 = set(v["fn"] for v in v2)
+            # a rerun that ran out of resources inside a function has not verified it either
+            for u_ in u2:
+                if u_.get("reason", "").startswith("resource limit") and u_.get("at"):
+                    f_ = next((f for f in vxlog["functions"] if not f.get("sigonly") and f.get("hdr_start") and int(f["hdr_start"]) <= int(u_["at"]) <= int(f.get("out_end", 0))), None)
+                    if f_:
+                        fns2.add(f_["fn"])
+            stable_ids = set(i for i in stable_ids if i in ids2 or next(v["fn"] for v in viol if v["id"] == i) in fns2)
         unstable = [v for v in viol if v["id"] not in stable_ids]
         viol = [v for v in viol if v["id"] in stable_ids]
         for v in unstable:
